@@ -779,3 +779,141 @@ Proof.
     intros l Hl; inversion Hl; subst; auto.
   - apply pick_some_live. apply lookup_all_live.
 Qed.
+
+(* the list level: refresh keeps the order and drops exactly the structures that refresh_one drops *)
+Lemma refresh_list_spec tobjs ds :
+  refresh_list tobjs ds = flat_map (fun d => match refresh_one tobjs d with Some d' => [d'] | None => [] end) ds.
+Proof. induction ds as [|d r IH]; simpl; auto. destruct (refresh_one tobjs d); simpl; rewrite IH; auto. Qed.
+
+Lemma refresh_all_valid tobjs ds : Forall (fun d => d_valid d = true) (refresh_list tobjs ds).
+Proof.
+  induction ds as [|d r IH]; simpl; auto. destruct (refresh_one tobjs d) eqn:E; auto.
+  constructor; auto. apply refresh_one_id in E. tauto.
+Qed.
+
+(* dup, then the first get, is refresh on the same indexes / values *)
+Lemma dup_one_invalid d : d_valid (dup_one d) = false /\ d_id (dup_one d) = d_id d /\ d_nb (dup_one d) = d_nb d.
+Proof. unfold dup_one; simpl; auto. Qed.
+
+Lemma dup_one_wf d : wf_idist d -> wf_idist (dup_one d) /\ d_indexes (dup_one d) = d_indexes d /\ d_values (dup_one d) = d_values d.
+Proof.
+  intros (Hi & Hv & Hd). unfold wf_idist, dup_one. simpl.
+  assert (H1 : firstn (d_nb d) (d_indexes d) = d_indexes d) by (rewrite <- Hi; apply firstn_all).
+  assert (H2 : firstn (d_nb d * d_nb d) (d_values d) = d_values d) by (rewrite <- Hv; apply firstn_all).
+  rewrite H1, H2. auto.
+Qed.
+
+(* ------------------------------------------------------------------ *)
+(* transforms                                                          *)
+(* ------------------------------------------------------------------ *)
+Definition wf_pdist (p : pdist) : Prop :=
+  length (p_objs p) = p_nb p /\ length (p_values p) = (p_nb p * p_nb p)%nat.
+
+Definition hetero_kind (objs : list oref) (kind : N) : N :=
+  if (unique_type_of objs =? TYPE_NONE)%N then N.lor kind HWLOC_DISTANCES_KIND_HETEROGENEOUS_TYPES
+  else N.land kind (N.lxor (N.ones 64) HWLOC_DISTANCES_KIND_HETEROGENEOUS_TYPES).
+
+Lemma transform_remove_null_spec p :
+  wf_pdist p ->
+  let keep := map is_some (p_objs p) in
+  let c := countb keep in
+  ((c < 2)%nat -> transform_remove_null p = (p, Err EINVAL)) /\
+  (c = p_nb p -> (2 <= c)%nat -> transform_remove_null p = (p, Ok tt)) /\
+  ((2 <= c)%nat -> (c < p_nb p)%nat ->
+     transform_remove_null p =
+     (PDist (p_id p) c (filter is_some (p_objs p)) (hetero_kind (filter is_some (p_objs p)) (p_kind p))
+            (submatrix (sel_from keep O) (p_nb p) (p_values p)), Ok tt)).
+Proof.
+  intros (Ho & Hv) keep c. unfold transform_remove_null.
+  assert (Hf : firstn (p_nb p) (p_objs p) = p_objs p) by (rewrite <- Ho; apply firstn_all).
+  rewrite Hf. fold keep. fold c.
+  repeat split.
+  - intros H. destruct (c <? 2)%nat eqn:E; auto. apply Nat.ltb_ge in E. lia.
+  - intros H H2. destruct (c <? 2)%nat eqn:E; [apply Nat.ltb_lt in E; lia|].
+    rewrite H, Nat.eqb_refl. auto.
+  - intros H2 Hlt. destruct (c <? 2)%nat eqn:E; [apply Nat.ltb_lt in E; lia|].
+    destruct (c =? p_nb p)%nat eqn:E1; [apply Nat.eqb_eq in E1; lia|].
+    assert (Hs := restrict_all_spec (p_objs p) None None (p_values p) (p_nb p) Ho).
+    simpl in Hs. fold keep in Hs. fold c in Hs. rewrite Hs; auto; try discriminate.
+    unfold keep. rewrite pick_is_some. unfold set_p, hetero_kind. reflexivity.
+Qed.
+
+(* --- MERGE_SWITCH_PORTS: the objects --- *)
+(* the objects the documentation promises: every non-port object and the first port *)
+Definition merged_objs (objs : list oref) (first : nat) : list oref :=
+  map (fun jr => if (first <? fst jr)%nat && is_nvswitch (snd jr) then None else snd jr)
+      (combine (seq O (length objs)) objs).
+
+Lemma merge_loop_objs_fixed : forall js nb i objs v j,
+  (forall j', In j' js -> (i < j')%nat) ->
+  nth j (fst (merge_loop true js nb i objs v)) None =
+  if existsb (Nat.eqb j) js && is_nvswitch (nth j objs None) then None else nth j objs None.
+Proof.
+  induction js as [|j0 js IH]; intros nb i objs v j Hjs; simpl; auto.
+  destruct (is_nvswitch (nth j0 objs None)) eqn:E.
+  - rewrite IH by (intros; apply Hjs; simpl; auto).
+    destruct (Nat.eqb_spec j j0) as [->|Hne]; simpl.
+    + rewrite E. destruct (Nat.lt_ge_cases j0 (length objs)) as [Hl|Hl].
+      * rewrite nth_upd_same by auto. simpl. rewrite andb_false_r. reflexivity.
+      * rewrite nth_overflow in E by auto. discriminate.
+    + rewrite nth_upd_other by auto. reflexivity.
+  - rewrite IH by (intros; apply Hjs; simpl; auto).
+    destruct (Nat.eqb_spec j j0) as [->|Hne]; simpl; auto.
+    rewrite E. rewrite !andb_false_r. reflexivity.
+Qed.
+
+(* with the patch, a non-port object is never removed *)
+Lemma merge_fixed_keeps_nonports js nb i objs v j :
+  (forall j', In j' js -> (i < j')%nat) ->
+  is_nvswitch (nth j objs None) = false ->
+  nth j (fst (merge_loop true js nb i objs v)) None = nth j objs None.
+Proof. intros H E. rewrite merge_loop_objs_fixed by auto. unfold oref in *. rewrite E, andb_false_r. auto. Qed.
+
+(* the current code: everything after the first port is nulled *)
+Lemma merge_current_drops : forall js nb i objs v j,
+  In j js -> (j < length objs)%nat -> nth j (fst (merge_loop false js nb i objs v)) None = None.
+Proof.
+  unfold oref in *.
+  induction js as [|j0 js IH]; intros nb i objs v j Hin Hl; simpl in *; [tauto|].
+  destruct (Nat.eq_dec j0 j) as [->|Hne].
+  - assert (Hnull : forall js' objs' v', nth j objs' None = None -> nth j (fst (merge_loop false js' nb i objs' v')) None = None).
+    { induction js' as [|a js' IH']; intros objs' v' Hn; simpl; auto.
+      destruct (is_nvswitch (nth a objs' None)); apply IH';
+        (destruct (Nat.eq_dec a j) as [->|Hd]; [destruct (Nat.lt_ge_cases j (length objs')); [rewrite nth_upd_same by auto; auto| rewrite nth_overflow by (rewrite upd_length; auto); auto] | rewrite nth_upd_other by auto; auto]). }
+    destruct (is_nvswitch (nth j objs None)); apply Hnull; apply nth_upd_same; auto.
+  - destruct Hin as [->|Hin]; [congruence|].
+    destruct (is_nvswitch (nth j0 objs None)); apply IH; auto; rewrite upd_length; auto.
+Qed.
+
+(* --- get_by_name --- *)
+Lemma kind_all_from : N.land HWLOC_DISTANCES_KIND_ALL HWLOC_DISTANCES_KIND_FROM_ALL = HWLOC_DISTANCES_KIND_FROM_ALL.
+Proof. vm_compute. reflexivity. Qed.
+Lemma kind_all_value : N.land HWLOC_DISTANCES_KIND_ALL HWLOC_DISTANCES_KIND_VALUE_ALL = HWLOC_DISTANCES_KIND_VALUE_ALL.
+Proof. vm_compute. reflexivity. Qed.
+
+Definition kind_complete (d : idist) : Prop :=
+  N.land HWLOC_DISTANCES_KIND_FROM_ALL (d_kind d) <> 0%N /\ N.land HWLOC_DISTANCES_KIND_VALUE_ALL (d_kind d) <> 0%N.
+
+Lemma by_name_matches name d : kind_complete d ->
+  matches name TYPE_NONE HWLOC_DISTANCES_KIND_ALL d = matches name TYPE_NONE 0 d.
+Proof.
+  intros (Hf & Hv). unfold matches. rewrite kind_all_from, kind_all_value.
+  rewrite !N.land_0_l. rewrite N.eqb_refl. simpl.
+  destruct (N.eqb_spec (N.land HWLOC_DISTANCES_KIND_FROM_ALL (d_kind d)) 0); [congruence|].
+  destruct (N.eqb_spec (N.land HWLOC_DISTANCES_KIND_VALUE_ALL (d_kind d)) 0); [congruence|].
+  rewrite !andb_false_r. reflexivity.
+Qed.
+
+Lemma filter_ext_Forall {A} (f g : A -> bool) l : Forall (fun x => f x = g x) l -> filter f l = filter g l.
+Proof. induction 1 as [|x l Hx Hl IH]; simpl; auto. rewrite Hx, IH. auto. Qed.
+
+(* name-only semantics: exactly the structures carrying that name *)
+Definition name_matches (name : option (list N)) (d : idist) : bool := matches name TYPE_NONE 0 d.
+
+Lemma name_matches_spec n d : name_matches (Some n) d = true <-> d_name d = Some n.
+Proof.
+  unfold name_matches. rewrite matches_iff. unfold matches_spec. split.
+  - intros (H & _). apply H; auto.
+  - intros H. repeat split; auto.
+    + intros n' Hn'. congruence.
+Qed.
